@@ -98,3 +98,44 @@ PROPS["C13"] = dict(
         technique="property-based testing (rapid) with validity-predicate oracles + native go fuzzing",
     ),
 )
+
+PROPS["C14"] = dict(
+    pkg="c14",
+    level="exploration",
+    rule=("expression trees (depth <= 5) over the 14 style functions, concatenation and text leaves (with newlines, wide/combining "
+          "characters), evaluated by the real style layer and by a cell-level reference semantics; per-character attributes compared "
+          "exactly, attribute state required neutral at every line break and at the end; then 0..4 layout operations (Wrap, DumbWrap, "
+          "Pad, Indent, Snip) after each of which the visible cells with their attributes are compared again. Non-trivial: tree depth "
+          ">= 3 with a newline under >= 2 styles and at least one layout op. Distinct = distinct (tree, ops)."),
+    units=[
+        rapid("Tree", "TestTree", 120000, 4000000),
+    ],
+    manifest=dict(
+        text=("Property-based testing against an SGR terminal-state emulator: generated style-function expression trees are compared "
+              "cell by cell with a reference semantics, and every output (also after layout operations) must be attribute-neutral at "
+              "every line end. Sampled."),
+        design_ref="DESIGN.md §3 C14",
+        note="Trusted: the emulator (harness/vorc/term.go) and the cell-level reference semantics of the style helpers (harness/vgen/styled.go).",
+        technique="property-based testing (rapid) with a terminal-emulator oracle and a reference semantics for style expressions",
+    ),
+)
+
+PROPS["C16"] = dict(
+    pkg="c16",
+    level="exploration",
+    rule=("CenterVertically enumerated over every geometry: prefix and suffix of 0 (the empty string the UI passes) to 12 lines, "
+          "centred text of 1..12 lines, heights 2..14 (thorough: up to 24 lines, heights 2..40); oracle: exact line count, centred "
+          "block at row floor((h-c)/2), rows above = tail of the prefix, rows below = head of the suffix, blank padded; centred text "
+          "taller than the screen is cut to its first h lines. Non-trivial: centred text shorter than the height. Distinct = distinct geometry."),
+    units=[
+        enum("GeomEnum", "TestGeomEnum"),
+    ],
+    exhaustive_claim=["GeomEnum"],
+    manifest=dict(
+        text=("Exhaustive enumeration of all small frame geometries against an exact row-by-row reference; UI frames produced during "
+              "key-history exploration are checked by the units added with the UI driver. Exhaustive within the stated bounds."),
+        design_ref="DESIGN.md §3 C16",
+        note="Trusted: the row-by-row reference in harness/c16.",
+        technique="exhaustive small-scope enumeration with an exact reference (property-based for UI frames)",
+    ),
+)
